@@ -314,7 +314,7 @@ def enc(x):
     raise ValueError(x)
 
 
-MODEL_READY = False
+MODEL_READY = True
 
 
 def to_model(case, obs):
